@@ -22,7 +22,7 @@ Which object the caches are keyed on is the parameter `Cfg`; the value the theor
 the translator reads from the source (`Gen.C08.cfg`). -/
 namespace JediModel.Caches
 
-/-! ## association lists (Python dicts); newest binding first, older bindings are shadowed -/
+/-! ## association lists (Python dicts): at most one binding per key -/
 abbrev AMap (κ ν : Type) := List (κ × ν)
 
 namespace AMap
@@ -32,10 +32,11 @@ def get? : AMap κ ν → κ → Option ν
   | [], _ => none
   | (k', v) :: r, k => if k' = k then some v else get? r k
 
-def set (m : AMap κ ν) (k : κ) (v : ν) : AMap κ ν := (k, v) :: m
-
 /-- keep the bindings whose key satisfies `p` -/
 def keep (m : AMap κ ν) (p : κ → Bool) : AMap κ ν := m.filter fun e => p e.1
+
+/-- `m[k] = v`: the old binding of `k` is replaced -/
+def set (m : AMap κ ν) (k : κ) (v : ν) : AMap κ ν := (k, v) :: keep m fun k' => decide (k' ≠ k)
 
 def keys (m : AMap κ ν) : List κ := (m.map (·.1)).eraseDups
 end AMap
